@@ -18,6 +18,7 @@ import (
 	"verif/harness/core"
 	"verif/harness/docs"
 	"verif/harness/gen"
+	"verif/harness/goast"
 	"verif/harness/model"
 )
 
@@ -341,6 +342,25 @@ func evalC16(rel string, a, b *gen.Case, useCLI bool) (bool, string, error) {
 	switch rel {
 	case "only-models":
 		probs = relOnlyModels(pa, pb)
+		if len(probs) == 0 {
+			// "nothing else": an import that only the omitted methods used would be an unused import
+			psA, _ := goast.CheckSingle("gen.go", ra.Sources["-"])
+			psB, _ := goast.CheckSingle("gen.go", rb.Sources["-"])
+			fullOK := true
+			for _, p := range psA {
+				if p.Kind == "type" {
+					fullOK = false
+				}
+			}
+			if fullOK {
+				for _, p := range psB {
+					if p.Kind == "type" {
+						probs = append(probs, "the full output type-checks but the --only-models output does not: "+p.Msg)
+						break
+					}
+				}
+			}
+		}
 	case "tags":
 		probs = relTags(pa, pb, a.Config.Tags, b.Config.Tags)
 	case "capitalization", "struct-name-from-title", "schema-root-type":
